@@ -611,13 +611,14 @@ func runC20(c *Ctx) {
 		// find comparisons typ == const where typ comes from sendPacket #0 / result.typ
 		var chainStart *ssa.BasicBlock
 		blocks := map[*ssa.BasicBlock]bool{}
+		noMatch := map[*ssa.BasicBlock]int{}
 		for _, b := range fn.Blocks {
 			iff, ok := b.Instrs[len(b.Instrs)-1].(*ssa.If)
 			if !ok {
 				continue
 			}
 			cmp, ok := iff.Cond.(*ssa.BinOp)
-			if !ok || cmp.Op != token.EQL {
+			if !ok || (cmp.Op != token.EQL && cmp.Op != token.NEQ) {
 				continue
 			}
 			if typeName(cmp.X.Type()) != "fxp" {
@@ -627,6 +628,11 @@ func runC20(c *Ctx) {
 				continue
 			}
 			blocks[b] = true
+			if cmp.Op == token.NEQ {
+				noMatch[b] = 0 // `typ != K`: the other types go on through the true side
+			} else {
+				noMatch[b] = 1
+			}
 			if chainStart == nil {
 				chainStart = b
 			}
@@ -634,10 +640,33 @@ func runC20(c *Ctx) {
 		if len(blocks) == 0 {
 			continue
 		}
-		// the default: the false successor of the last comparison in each chain
+		// the default: the no-match successor of the last comparison in each chain (a comparison from whose no-match
+		// side another comparison of a reply type is still reachable is not the last one)
 		for b := range blocks {
-			f := b.Succs[1]
+			f := b.Succs[noMatch[b]]
 			if blocks[f] {
+				continue
+			}
+			more := false
+			seenB := map[*ssa.BasicBlock]bool{f: true}
+			work := []*ssa.BasicBlock{f}
+			for len(work) > 0 && !more {
+				x := work[len(work)-1]
+				work = work[:len(work)-1]
+				for _, sx := range x.Succs {
+					if sx.Dominates(x) {
+						continue // a back edge: the next reply is another reply
+					}
+					if blocks[sx] && sx != b {
+						more = true
+					}
+					if !seenB[sx] && !blocks[sx] {
+						seenB[sx] = true
+						work = append(work, sx)
+					}
+				}
+			}
+			if more {
 				continue
 			}
 			// f is the default arm: it must produce an error (return with non-nil error, or assign err)
